@@ -53,60 +53,82 @@ Section Del.
     eapply same_trans; [exact F | now apply IH].
   Qed.
 
-  (** the delete closure touches only the chunks [getUnRepeatChunk] listed and the root *)
+  (** the delete closure touches only the chunks [getUnRepeatChunk] listed *)
   Lemma api_delete_same a root order x x' o :
     api_delete cat capacity root order x = (x', o) ->
-    a <> root ->
-    (forall sh n, trav cat (ls x) root = Some sh -> ~ In (a, n) (unrepeat (ci x) sh)) ->
+    (forall sh n, trav cat (ls x) root = Some sh -> ~ In (a, n) (unrepeat (register_ci (ci x) root sh) sh)) ->
     same_at a (ls x) (ls x').
   Proof.
-    intros H Hroot Hun. unfold api_delete in H.
+    intros H Hun. unfold api_delete in H.
     destruct (trav cat (ls x) root) as [sh|] eqn:Et; [|inversion H; apply same_refl].
-    destruct (negb (order_ok root order (unrepeat (ci x) sh))); [inversion H; apply same_refl|].
-    destruct (reorder order (unrepeat (ci x) sh)) as [l'|] eqn:Er; [|inversion H; apply same_refl].
+    set (c0 := register_ci (ci x) root sh) in *.
+    destruct (negb (order_ok root order (unrepeat c0 sh))); [inversion H; apply same_refl|].
+    destruct (reorder order (unrepeat c0 sh)) as [l'|] eqn:Er; [|inversion H; apply same_refl].
     assert (Hl : forall cn, In cn l' -> fst cn <> a).
     { intros [c n] Hc Heq. simpl in Heq. subst c. apply (reorder_In order _ _ Er) in Hc. exact (Hun sh n eq_refl Hc). }
     pose proof (remove_all_same a root l' Hl (ls x)) as F.
     destruct (remove_all capacity root l' (ls x)) as [s1 [e|]]; cbn [fst] in F.
     - inversion H; subst; exact F.
-    - pose proof (set1_same a root (Some root) s1 Hroot) as G.
+    - destruct (mem_addr root (map fst (unrepeat c0 sh))) eqn:Em; [|inversion H; subst; exact F].
+      assert (Hroot : a <> root).
+      { intros ->. apply mem_addr_In in Em. apply in_map_iff in Em as [[r n] [E Hin]]. simpl in E. subst r.
+        exact (Hun sh n eq_refl Hin). }
+      pose proof (set1_same a root (Some root) s1 Hroot) as G.
       destruct (set capacity 0 SRemove (Some root) [root] s1) as [s2 o2]. cbn [fst] in G.
       assert (same_at a (ls x) s2) by (eapply same_trans; eauto).
       destruct o2 as [r t|r|r|r|r|r t|f|c d| |]; try (inversion H; subst; simpl; assumption).
       destruct r as [[]|]; inversion H; subst; simpl; assumption.
   Qed.
 
-  (** the tables after the handler: unchanged, or [delRootCid] of the root *)
+  (** the tables after the handler: unchanged (nothing to traverse), the root registered, or
+      registered and removed again by [delRootCid] *)
   Lemma api_delete_ci root order x x' o :
     api_delete cat capacity root order x = (x', o) ->
-    ci x' = ci x \/ exists sh, trav cat (ls x) root = Some sh /\ ci x' = del_root_cid (ci x) root sh.
+    ci x' = ci x \/ exists sh, trav cat (ls x) root = Some sh /\
+      (ci x' = register_ci (ci x) root sh \/ ci x' = del_root_cid (register_ci (ci x) root sh) root sh).
   Proof.
     intros H. unfold api_delete in H.
     destruct (trav cat (ls x) root) as [sh|] eqn:Et; [|inversion H; now left].
-    destruct (negb (order_ok root order (unrepeat (ci x) sh))); [inversion H; now left|].
-    destruct (reorder order (unrepeat (ci x) sh)) as [l'|]; [|inversion H; now left].
+    set (c0 := register_ci (ci x) root sh) in *.
+    destruct (negb (order_ok root order (unrepeat c0 sh))); [inversion H; now left|].
+    destruct (reorder order (unrepeat c0 sh)) as [l'|]; [|inversion H; now left].
+    right. exists sh. split; [reflexivity|].
     destruct (remove_all capacity root l' (ls x)) as [s1 [e|]]; [inversion H; now left|].
+    destruct (mem_addr root (map fst (unrepeat c0 sh))); [|inversion H; now right].
     destruct (set capacity 0 SRemove (Some root) [root] s1) as [s2 o2].
     destruct o2 as [r t|r|r|r|r|r t|f|c d| |]; try (inversion H; subst; simpl; now left).
-    destruct r as [[]|]; inversion H; subst; simpl; try (now left); right; exists sh; auto.
+    destruct r as [[]|]; inversion H; subst; simpl; try (now left); now right.
   Qed.
 
   (** chunks of another registered file: untouched, counts stay exact *)
   Lemma api_delete_protects a root order rb shb x x' o :
     api_delete cat capacity root order x = (x', o) ->
     RC cat (ci x) ->
-    (forall sh, trav cat (ls x) root = Some sh -> registered (ci x) root = true) ->
     registered (ci x) rb = true -> cat_get cat rb = Some shb -> rb <> root ->
-    In a (cidset shb) -> a <> root ->
+    In a (cidset shb) ->
     same_at a (ls x) (ls x') /\ RC cat (ci x') /\ registered (ci x') rb = true.
   Proof.
-    intros H Hrc Hg Hreg Hcat Hne Hin Hroot. split; [|].
-    - apply (api_delete_same a root order x x' o H Hroot).
+    intros H Hrc Hreg Hcat Hne Hin. split; [|].
+    - apply (api_delete_same a root order x x' o H).
       intros sh n Et. pose proof (trav_cat cat _ _ _ Et) as Ec.
-      apply (unrepeat_protects cat (ci x) root rb sh shb a n Hrc); auto. now apply (Hg sh).
-    - destruct (api_delete_ci root order x x' o H) as [->|[sh [Et ->]]]; [now split|].
-      pose proof (trav_cat cat _ _ _ Et) as Ec. split.
-      + apply (RC_del_root cat); auto. now apply (Hg sh).
-      + now rewrite registered_del_other.
+      apply (unrepeat_protects cat _ root rb sh shb a n); auto.
+      + now apply RC_register_ci.
+      + apply registered_register_same.
+      + now apply registered_register_mono.
+    - destruct (api_delete_ci root order x x' o H) as [ -> | [sh [Et [ -> | -> ]]]]; [now split| |];
+        pose proof (trav_cat cat _ _ _ Et) as Ec.
+      + split; [now apply RC_register_ci | now apply registered_register_mono].
+      + split.
+        * apply (RC_del_root cat); auto; [now apply RC_register_ci | apply registered_register_same].
+        * rewrite registered_del_other by exact Hne. now apply registered_register_mono.
+  Qed.
+
+  Lemma api_delete_RC root order x x' o :
+    api_delete cat capacity root order x = (x', o) -> RC cat (ci x) -> RC cat (ci x').
+  Proof.
+    intros H Hrc. destruct (api_delete_ci root order x x' o H) as [ -> | [sh [Et [ -> | -> ]]]]; [exact Hrc| |];
+      pose proof (trav_cat cat _ _ _ Et) as Ec.
+    - now apply RC_register_ci.
+    - apply (RC_del_root cat); auto; [now apply RC_register_ci | apply registered_register_same].
   Qed.
 End Del.
